@@ -42,6 +42,8 @@ type sentenceOpts struct {
 	// prefix, the way a loader scans a file for include statements), then the parse that is judged. The second parse is
 	// served from the context's result cache; what the first one learned about failures must not get lost
 	Prescan bool
+	// SharedSet: the file joins this file set, which already holds the inputs parsed (and the errors rendered) before
+	SharedSet *parsley.FileSet
 }
 
 type sentenceResult struct {
@@ -99,6 +101,9 @@ func concatInterp() parsley.Interpreter {
 func runSentence(c GCase, o sentenceOpts) *sentenceResult {
 	res := &sentenceResult{RootEnds: map[int]bool{}}
 	env := gram.NewEnvAt(c.In, o.Before)
+	if o.SharedSet != nil {
+		env = gram.NewEnvIn(o.SharedSet, c.In)
+	}
 	res.Env = env
 	gd := gram.NewGuard(env.Base)
 	gd.MaxEvents, gd.MaxCalls = 100000, 150000
